@@ -10,6 +10,9 @@
      call <entry> <id> <ok> S                                  -> ro | write dist <id> | write attr <i>   (first unlocked write of `events`)
      wcall <entry> <id> <ok> S                                 -> S' after the writes of `events` landed
      cinit users=<n> reg=<b> | cfini users=<n> reg=<b>         -> users=<n'> reg=<b'>   (GENERATED IR run sequentially)
+     reg <op> <variant> <a> <b> users=<n> reg=<b>              -> <result> users=<n'> reg=<b'>   (`regOp`: the entry points and the path
+                                                                  named by op/variant, `Reg.runHist` over the GENERATED IR)
+     reglive <k> users=<n> reg=<b>                             -> consistent   iff n = k (topologies alive) and reg <-> n > 0
    engine `conc`:
      search <threads> <rounds>      exhaustive interleaving search of the GENERATED init/fini programs
                                     -> ok states=<n> | fail <what> schedule=<t,t,..>
@@ -17,6 +20,7 @@
      ir                             -> the generated programs and whether they equal the model programs
 -/
 import Hw.Io.Conc
+import Hw.Io.ConcEntry
 import Hw.Gen.ComponentsIR
 import Driver.Util
 import Std.Data.HashSet
@@ -118,6 +122,74 @@ def seqCall (init : Bool) (users : Nat) (reg : Bool) : String :=
   if c'.bad then "model-error" else
   "users=" ++ toString c'.users ++ " reg=" ++ b01 c'.reg
 
+/-! ### public entry points reaching the registry (ops `reg`): op + variant -> the entry points the harness calls for it
+    (with the path the variant forces) and the result the harness prints -/
+open Hw.Conc.Reg in
+def regOp (op var : String) : Option (List Entry × String) :=
+  let complexV := ["hand-complex-first", "hand-complex-mid", "hand-complex-last", "hand-complex-only", "slot-complex"]
+  let okV := ["empty", "hand-attrs", "slot-ok"]
+  match op with
+  | "init" => some ([.topologyInit], "ok")
+  | "setsrc" =>
+    if ["synth-ok", "xml-ok", "xmlbuf-ok", "xmlbuf-loadfail"].contains var then some ([.setSource], "ok")
+    else if ["synth-bad", "xml-nofile", "xmlbuf-bad"].contains var then some ([.setSource], "fail") else none
+  | "setcomp" =>
+    if var = "ok" then some ([.setSource], "ok")
+    else if var = "unknown" || var = "badflags" then some ([.setSource], "fail") else none
+  | "load" =>
+    if var = "ok" || var = "native" then some ([.load], "ok")
+    else if var = "fail" then some ([.load], "fail")
+    else if var = "busy" then some ([.load], "EBUSY") else none
+  | "dup" =>
+    if var = "ok" then some ([.topologyDup true], "ok")
+    else if var = "unloaded" then some ([.topologyDup false], "EINVAL") else none
+  | "destroy" =>
+    if ["inited", "configured", "loaded", "failed", "adopted"].contains var then some ([.topologyDestroy], "ok") else none
+  | "export" =>
+    if var = "buf" || var = "file" then some ([.exportXml], "ok")
+    else if var = "badflags" then some ([.exportXml], "fail") else none
+  | "freebuf" => some ([.exportXml], "ok")
+  | "diffbuild" =>
+    if var = "same" || var = "mem" then some ([.topologyDup true, .diffBuild, .topologyDestroy], "ok")
+    else if var = "complex" then some ([.topologyInit, .setSource, .load, .diffBuild, .topologyDestroy], "toocomplex") else none
+  | "diffexpbuf" =>
+    if okV.contains var then some ([.diffExportXmlbuffer false], "ok")
+    else if complexV.contains var then some ([.diffExportXmlbuffer true], "EINVAL") else none
+  | "diffexpfile" =>
+    if okV.contains var then some ([.diffExportXml false], "ok")
+    else if complexV.contains var then some ([.diffExportXml true], "EINVAL")
+    else if var = "unwritable" then some ([.diffExportXml false], "fail") else none
+  | "diffloadbuf" =>
+    if var = "ok" then some ([.diffLoadXmlbuffer, .diffDestroy], "ok")
+    else if ["trunc", "notdiff", "garbage", "empty"].contains var then some ([.diffLoadXmlbuffer], "fail") else none
+  | "diffloadfile" =>
+    if var = "ok" then some ([.diffLoadXml, .diffDestroy], "ok")
+    else if var = "nofile" || var = "notdiff" then some ([.diffLoadXml], "fail") else none
+  | "diffdestroy" => some ([.diffDestroy], "ok")
+  | "getlen" =>
+    if var = "ok" then some ([.shmemGetLength true], "ok")
+    else if var = "flags" then some ([.shmemGetLength false], "EINVAL") else none
+  | "shmwrite" =>
+    if var = "ok" then some ([.shmemGetLength true, .shmemWrite true], "ok")
+    else if var = "flags" then some ([.shmemGetLength true, .shmemWrite false], "EINVAL")
+    else if var = "badfd" then some ([.shmemGetLength true, .shmemWrite false], "fail")
+    else if var = "busy" then some ([.shmemGetLength true, .shmemWrite false], "EBUSY") else none
+  | "adopt" =>
+    if var = "ok" then some ([.shmemAdopt .ok], "ok")
+    else if var = "flags" || var = "badlen" then some ([.shmemAdopt .early], "EINVAL")
+    else if var = "badfd" then some ([.shmemAdopt .early], "fail")
+    else if var = "busy" then some ([.shmemAdopt .early], "EBUSY") else none
+  | _ => none
+
+open Hw.Conc.Reg in
+def regLine (op var : String) (users : Nat) (reg : Bool) : String :=
+  match regOp op var with
+  | none => "bad-op"
+  | some (es, res) =>
+    let s := runHist Hw.Gen.ComponentsIR.initProg Hw.Gen.ComponentsIR.finiProg { users := users, reg := reg } es
+    if s.bad then "model-error: registry call without a reference (failed assert / lock) users=" ++ toString s.users
+    else res ++ " users=" ++ toString s.users ++ " reg=" ++ b01 s.reg
+
 def stepRO (_ : Unit) (line : String) : Unit × String :=
   let bad := ((), "bad-op")
   match tokens line with
@@ -144,6 +216,17 @@ def stepRO (_ : Unit) (line : String) : Unit × String :=
         if verb = "call" then ((), firstWrite s r)
         else if verb = "wcall" then ((), showState (applyWrites s (unlockedWrites (events s r))))
         else bad
+    | _, _, _ => bad
+  | ["reg", op, var, _, _, u, r] =>
+    match parseKV "users=" u, parseKV "reg=" r with
+    | some users, some reg => if reg > 1 then bad else ((), regLine op var users (reg != 0))
+    | _, _ => bad
+  | ["reglive", k, u, r] =>
+    match k.toNat?, parseKV "users=" u, parseKV "reg=" r with
+    | some k, some users, some reg =>
+      if reg > 1 then bad
+      else if k = users && (reg != 0) = decide (0 < users) then ((), "consistent")
+      else ((), "violates C17_history_refcount: " ++ toString k ++ " topologies alive, users=" ++ toString users ++ " reg=" ++ toString reg)
     | _, _, _ => bad
   | [verb, u, r] =>
     match parseKV "users=" u, parseKV "reg=" r with
